@@ -20,7 +20,7 @@ for s in sorted(os.listdir(os.path.join(VERIF, "seeded"))):
         m = re.search(r"(?is)(what it needs.*?|trigger.*?|needs.*?)\n\s*\n(.*?)(\n\s*\n|\Z)", rd)
         meta["needs"] = " ".join((m.group(2) if m else rd[:600]).split())[:700]
     n = int(s.split("-")[1])
-    if not isinstance(meta.get("round"), str): meta["round"] = (n + 1) // 2          # seeds 1-2: round 1, 3-4: round 2, 5-6: round 3, 7-8: round 4 (own seeds carry a text)
+    if not isinstance(meta.get("round"), str): meta["round"] = ((n + 1) // 2 if n <= 8 else n - 4)         # seeds 1-2: round 1, 3-4: round 2, 5-6: round 3, 7-8: round 4 (own seeds carry a text)
     meta.setdefault("confirmed", "tools/confirm_seed.sh: demo passes on /repo HEAD, patch applies, tools/run_repo_tests.sh prints PASSED 345 FAILED 0 with the patch, demo fails with the patch")
     if s in log:
         rc, key = log[s]
